@@ -30,21 +30,23 @@ func init() {
 		Rule: "one generated schema (defaults, suggestions, abstract types, custom scalars) is loaded once per round and shared by G in {2,4,8,16,32} goroutines released together, each running its own seeded mix of operations on its own documents: parse+validate (valid and faulted documents, default rule set and explicit rule lists), " +
 			"VariableValues on own maps, Field/Directive.ArgumentMap over whole documents, FormatSchema, possible-type and implements lookups; the build uses the Go race detector and the hooks inject runtime.Gosched with a seeded probability at walker events. " +
 			"Oracles: (1) any race report whose stacks touch gqlparser; (2) a deep reflective snapshot of everything reachable from the *ast.Schema (scalars, strings, maps in key order, pointer structure, slices dumped up to their CAPACITY) taken before and after each round must be identical; " +
-			"(3) every concurrent call must return exactly what the same call returned alone before the round, and again alone after it; a sequential replay of the same history is checked the same way. " +
+			"(3) every concurrent call must return exactly what the same call returned alone before the round, and again alone after it; a sequential replay of the same history is checked the same way; every list of rounds is played by two worker processes in opposite orders (warm and cold rounds swapped), and what a call returned alone must be the same in both. " +
 			"distinct = distinct completion-order signatures of the goroutines plus distinct operation kinds; non-trivial = concurrent operations executed",
 		Assumptions: []string{
 			"interleavings are those the Go scheduler produced in the runs made (diversified by yields); the race detector's happens-before analysis makes detection of an unsynchronised write largely independent of the exact interleaving",
 			"documents hitting the recorded ArgumentMap finding (F-C15-01) panic identically alone and concurrently; the panic text is the compared result",
 		},
-		Shards:          func(tier string) int { return 8 },
+		Shards:          func(tier string) int { return 2 * c11Parts },
 		Parallel:        4,
 		Run:             c11Run,
 		Check:           c11Check,
+		Finish:          c11Finish,
 		DistinctClasses: []string{"completion-order", "op-kind"},
 		MinEvaluations:  func(tier string) int64 { return 20 },
 		RequiredCounts:  []string{"concurrent_ops", "cold_rounds", "op:schema-argmaps", "op:format-builtin", "rounds", "snapshots_compared", "yield_rounds", "op:deep-argmap", "op:validate", "op:validate-rules", "op:variables", "op:argmap", "op:format", "op:lookups"},
 		Race:            true,
-		ShardTimeoutS:   1200,
+		ShardTimeoutS:   2400,
+		CaseStallS:      900, // one case is a whole round (up to 32 goroutines under the race detector): minutes on a loaded machine
 	})
 }
 
@@ -61,12 +63,65 @@ func c11Run(x *core.Ctx) {
 	if !x.Quick() {
 		rounds, opsPer = 75, 120
 	}
-	r := x.Rand(uint64(x.Shard))
+	// every list of rounds is played by two worker processes: forward, and - with warm and cold rounds swapped - backward
+	part, replica := x.Shard%c11Parts, x.Shard/c11Parts
+	r := x.Rand(uint64(part))
 	gs := []int{2, 4, 8, 16, 32}
+	var cases []*core.Case
 	for i := 0; i < rounds; i++ {
-		c := core.NewCase("round", "seed", fmt.Sprint(r.Uint64()%1000000007), "g", strconv.Itoa(gs[(i+x.Shard)%len(gs)]), "ops", strconv.Itoa(opsPer), "yield", strconv.Itoa([]int{0, 2000, 20000}[i%3]), "cold", strconv.Itoa([]int{1, 0, 0, 1, 0}[i%5]))
+		cold := []int{1, 0, 0, 1, 0}[i%5]
+		if replica == 1 {
+			cold = 1 - cold
+		}
+		cases = append(cases, core.NewCase("round", "seed", fmt.Sprint(r.Uint64()%1000000007), "g", strconv.Itoa(gs[(i+part)%len(gs)]), "ops", strconv.Itoa(opsPer), "yield", strconv.Itoa([]int{0, 2000, 20000}[i%3]), "cold", strconv.Itoa(cold)))
+	}
+	for i := range cases {
+		c := cases[i]
+		if replica == 1 {
+			c = cases[len(cases)-1-i]
+		}
 		x.Do(c, func() { c11Check(x, c) })
 	}
+}
+
+const c11Parts = 8
+
+// c11Finish: a call alone returns the same thing in every process, whatever that process did before.
+func c11Finish(x *core.Ctx, merged *core.Result) {
+	outs := map[string]map[string]bool{}
+	for key := range merged.Distinct["alone"] {
+		i := strings.LastIndexByte(key, '=')
+		if outs[key[:i]] == nil {
+			outs[key[:i]] = map[string]bool{}
+		}
+		outs[key[:i]][key[i+1:]] = true
+	}
+	ins := map[string]map[string]bool{}
+	for id := range outs {
+		j := strings.LastIndexByte(id, '#')
+		if ins[id[:j]] == nil {
+			ins[id[:j]] = map[string]bool{}
+		}
+		ins[id[:j]][id[j+1:]] = true
+	}
+	for id, set := range ins {
+		if len(set) > 1 {
+			x.HarnessBug("round generator is not a function of the seed: " + id + " had different operations in different workers")
+			return
+		}
+	}
+	n := 0
+	for id, set := range outs {
+		if len(set) > 1 {
+			if n++; n > 3 {
+				continue
+			}
+			parts := strings.Split(id[:strings.LastIndexByte(id, '#')], "/")
+			x.SetCurrent(core.NewCase("round", "seed", parts[0], "note", "played in two worker processes in opposite orders; compare the sequential results"))
+			x.Violate("result-drift:another-process:"+parts[2], fmt.Sprintf("round %s goroutine %s: the %s calls, each made alone, returned different results in two worker processes with different histories", parts[0], parts[1], parts[2]), "the same results")
+		}
+	}
+	merged.Counts["alone_results_compared_across_processes"] = int64(len(outs))
 }
 
 // ---------------------------------------------------------------- deep snapshot
@@ -230,7 +285,17 @@ func snapshotPathKind(a, b string) string {
 
 // ---------------------------------------------------------------- operations
 
+// c11SharedRules is one rule list with spare capacity that every goroutine passes prefixes of (a server keeps its tiers of
+// rules as sub-slices of one list): the caller's list is the caller's.
+var c11SharedRules = func() []validator.Rule {
+	l := make([]validator.Rule, 0, len(c18Standard)+16)
+	return append(l, c18Standard...)
+}()
+
 func c11RuleSubset(ix []int) []validator.Rule {
+	if len(ix) > 0 && ix[0]%2 == 0 {
+		return c11SharedRules[:3+(ix[0]/2+len(ix))%(len(c11SharedRules)-3)]
+	}
 	var out []validator.Rule
 	for _, i := range ix {
 		out = append(out, c18Standard[i%len(c18Standard)])
@@ -597,7 +662,13 @@ func c11Check(x *core.Ctx, c *core.Case) {
 		items = append(rest, &model.Item{Kind: "schema", OpTypes: []model.OpType{{Op: "mutation", Type: mut}}, Dirs: schemaDirs})
 		x.Count("rounds_without_query_root")
 	}
-	src := (&model.Renderer{}).RenderSDoc(&model.SDoc{Items: items})
+	srn := &model.Renderer{}
+	if seed%5 == 3 {
+		// a schema text full of comments (kept on the definitions, printed by the formatter under WithComments)
+		srn = &model.Renderer{R: r.Fork(4242), Trivia: 2}
+		x.Count("rounds_with_commented_schema")
+	}
+	src := srn.RenderSDoc(&model.SDoc{Items: items})
 	schema, err := gqlparser.LoadSchema(&ast.Source{Name: "shared.graphql", Input: src})
 	if err != nil {
 		// whether a generated schema loads is C07's business (it checks these very schemas against the reference rule
@@ -633,6 +704,18 @@ func c11Check(x *core.Ctx, c *core.Case) {
 				base[g][i] = c11Exec(schema, op)
 				x.Count("op:" + op.kind)
 				x.Distinct("op-kind", op.kind)
+			}
+		}
+		// what each call returned alone, for the driver to compare with what the same call returned alone in ANOTHER worker
+		// process, which plays the same rounds in the opposite order (another history): per goroutine and operation kind
+		for g := range all {
+			in, out := map[string]uint64{}, map[string]uint64{}
+			for i, op := range all[g] {
+				in[op.kind] = in[op.kind]*1099511628211 ^ core.HashString(op.doc+fmt.Sprint(op.ruleIx)+showMap(op.vars))
+				out[op.kind] = out[op.kind]*1099511628211 ^ core.HashString(base[g][i])
+			}
+			for k := range in {
+				x.Distinct("alone", fmt.Sprintf("%s/%d/%s#%x=%x", c.Get("seed"), g, k, in[k], out[k]))
 			}
 		}
 		if mid := snapshotSchema(schema); mid != before {
